@@ -53,6 +53,9 @@ def _worker_init():
     from . import seams
 
     seams.install()
+    import warnings
+
+    warnings.simplefilter("ignore")  # numpy/pandas RuntimeWarnings of the library under test
     faulthandler.enable()
     _WORKER_READY = True
 
@@ -96,6 +99,8 @@ def job_batch(prop, seed, cls, cfg, run_indices, timeout_s):
         "samples": [],
         "digests": {},
         "known_seen": Counter(),
+        "states": set(),
+        "transitions": set(),
     }
     per_site_kept = Counter()
     known = [e for e in load_known() if e["property"] == prop]
@@ -116,6 +121,8 @@ def job_batch(prop, seed, cls, cfg, run_indices, timeout_s):
         for h in rec.get("interleavings", ()):
             agg["interleavings"].append(int(h, 16))
         agg["probes"].update(rec.get("probes", ()))
+        agg["states"].update(rec.get("states", ()))
+        agg["transitions"].update(rec.get("transitions", ()))
         agg["faults"].update(rec.get("faults", ()))
         agg["ticks"] += rec.get("ticks", 0)
         agg["pools"] += rec.get("n_pools", 0)
@@ -395,6 +402,7 @@ def run_check(prop: str, tier: str, seed: int, runs: int | None = None, workers:
         total = Counter()
         probes, faults, site_counts = Counter(), Counter(), Counter()
         nontrivial, inter = [], []
+        states_all, transitions_all = set(), set()
         samples = []
         raw_violations = []
         walls = []
@@ -414,6 +422,8 @@ def run_check(prop: str, tier: str, seed: int, runs: int | None = None, workers:
             total["violating_runs"] += r["n_violating_runs"]
             probes.update(r["probes"])
             known_seen.update(r["known_seen"])
+            states_all.update(r.get("states", ()))
+            transitions_all.update(r.get("transitions", ()))
             faults.update(r["faults"])
             site_counts.update(r["site_counts"])
             nontrivial.append(r["nontrivial_digests"])
@@ -519,6 +529,9 @@ def run_check(prop: str, tier: str, seed: int, runs: int | None = None, workers:
                 "fault_counts_fired": dict(faults),
                 "distinct_interleavings": n_inter,
                 "interleaving_measure": "distinct (call-site, n_tasks, depth, body execution order, delivery order, #done at each delivery) tuples over all simulated pools",
+                "states_reached": len(states_all),
+                "transitions_reached": len(transitions_all),
+                "state_measure": "C13/C19: (key layout, bitmask of filled cached properties) of the reused GroupBy; transitions: (state, operation, state). 0 for checks without an object under history.",
                 "probes": dict(sorted(probes.items())),
                 "probes_stuck_at_zero": stuck,
                 "classes": len(classes),
